@@ -426,9 +426,9 @@ def minimal_m_separator(
     for node in i:
         aug_G_p.remove_node(node)
 
-    z_prime = r.intersection(
-        _anterior(G_copy, {x, y}, directed_edge_name, undirected_edge_name)
-    ) - {
+    # G_copy is the subgraph induced by the anterior set of {x, y} and i: all of its nodes
+    # other than x and y are candidates, not only the anterior set of {x, y}
+    z_prime = r.intersection(anterior_nodes_G) - {
         x,
         y,
     }
